@@ -45,7 +45,8 @@ type c13Reg struct {
 	early     bool
 	done      bool
 	accepted  bool
-	regWindow int // number of windows completed when the registration was made
+	regWindow int  // number of windows completed when the registration was made
+	failing   bool // the callback also returns an error from every invocation (that must not keep others from running)
 }
 
 func (g *c13Reg) String() string {
@@ -63,6 +64,9 @@ func (g *c13Reg) String() string {
 		}
 	}
 	s += " " + cbTimeNames[g.when] + " " + cbTargetNames[g.target]
+	if g.failing {
+		s += " [returns an error every time]"
+	}
 	if g.early {
 		s += " (registered as soon as the owner exists)"
 	} else {
@@ -229,6 +233,10 @@ func (s *c13State) callback(g *c13Reg) tabular.PropertyCallback {
 		o.SetProperty(key, s.evSeq)
 		s.events = append(s.events, c13Event{seq: s.evSeq, reg: g, tgt: tgt, live: live, key: key, obj: o, typeStr: fmt.Sprintf("%T", o)})
 		s.c.Rec.Count("callback_events_observed", 1)
+		if g.failing {
+			s.c.Rec.Count("callback_invocations_that_returned_an_error", 1)
+			return fmt.Errorf("callback %d fails on purpose (invocation %d)", g.id, s.evSeq)
+		}
 		return nil
 	})
 }
@@ -782,6 +790,13 @@ func c13Pairs(c *Ctx, i int, r *gen.R) {
 	sh := c13Shapes[[]int{1, 3, 5}[si]]
 	g1 := c13Combo(1, a, sh, true, i)
 	g2 := c13Combo(2, b, sh, i%2 == 0, i/3)
+	if a == b {
+		// the same list twice: same owner instance, the first registered callback fails
+		dup := *g1
+		dup.id = 2
+		g2 = &dup
+		g1.failing = true
+	}
 	c.Rec.Eval(gen.Hash64("pair", fmt.Sprint(a, b, si)), true)
 	c13RunCase(c, sh, []*c13Reg{g1, g2}, []int{0, 5}, i%997 == 0)
 }
@@ -820,6 +835,18 @@ func c13Random(c *Ctx, i int, r *gen.R) {
 	for k := range regs {
 		combo := r.Intn(48)
 		regs[k] = c13Combo(k+1, combo, sh, r.Bool(), r.Intn(1000))
+		if k > 0 && r.Chance(1, 3) {
+			// a second registration in the very same list (same owner, time and target) as an earlier one
+			dup := *regs[r.Intn(k)]
+			dup.id = k + 1
+			dup.done, dup.accepted = false, false
+			regs[k] = &dup
+			combo = dup.owner*12 + dup.when*3 + dup.target
+		}
+		regs[k].failing = r.Chance(1, 4)
+		if regs[k].failing {
+			combo += 100
+		}
 		sig = append(sig, combo)
 	}
 	np := r.Range(1, 3)
@@ -893,7 +920,7 @@ func init() {
 		ID:    "C13",
 		Level: "exploration",
 		Rule: "phase 0 (exhaustive): each of the 48 (owner kind x time x target) registrations singly x 12 representative table shapes (header none/0/1/2/3 cells set before or after the rows; rows of 0-3 cells built by AddRowItems, NewRow+Add+AddRow or AppendNewRow+Add; separators) x {registered as soon as the owner exists, registered after the build} x 3 owner instances (cell owners include header cells addressed through Headers()), followed by an InvokeRenderCallbacks pass and one renderer pass; " +
-			"phase 1 (exhaustive): out-of-range times/targets and a foreign owner type on every owner; phase 2: random sets of 1-12 registrations on random shapes with 1-3 passes through random triggers; phase 3 (thorough, exhaustive): all 48x48 pairs on 3 shapes. " +
+			"phase 1 (exhaustive): out-of-range times/targets and a foreign owner type on every owner; phase 2: random sets of 1-12 registrations (a third of them a second registration in the same list as an earlier one, a quarter of them returning an error from every invocation) on random shapes with 1-3 passes through random triggers; phase 3 (thorough, exhaustive): all 48x48 pairs on 3 shapes. " +
 			"Every add operation and every render pass is one window: mandatory events exactly once, every event at most once per (registration,target), allowed targets only, add/render time matching the window, documented nesting order, and read-back through the table of a property set inside the callback. " +
 			"phase 4: a cell value that already carries 0-4 registrations is added at 1-3 places (separate rows or twice in one row), live cells get further registrations, live cells are copied by value and added again, the caller's variable gets registrations after the fact; a registration must fire exactly once per pass on the live cell it was made on and on every by-value copy of a carrier (a cell value registered before it was added carries its callbacks), and never on any other cell. " +
 			"Distinct = distinct (shape, registration multiset, triggers) resp. distinct copy histories; all cases are non-trivial.",
